@@ -45,7 +45,9 @@ func lcCatalog() []lcDef {
 	return []lcDef{
 		{"tcp1", func(b int) *msg.NewProxy { return &msg.NewProxy{ProxyName: "tcp1", ProxyType: "tcp", RemotePort: b} }, []lcRes{r("tcpport:1", "tcpport:1"), r("name:tcp1", "name:tcp1")}},
 		{"tcp1b", func(b int) *msg.NewProxy { return &msg.NewProxy{ProxyName: "tcp1b", ProxyType: "tcp", RemotePort: b} }, []lcRes{r("tcpport:1", "tcpport:1"), r("name:tcp1b", "name:tcp1b")}},
-		{"udp1", func(b int) *msg.NewProxy { return &msg.NewProxy{ProxyName: "udp1", ProxyType: "udp", RemotePort: b + 1} }, []lcRes{r("udpport:2", "udpport:2"), r("name:udp1", "name:udp1")}},
+		{"udp1", func(b int) *msg.NewProxy {
+			return &msg.NewProxy{ProxyName: "udp1", ProxyType: "udp", RemotePort: b + 1}
+		}, []lcRes{r("udpport:2", "udpport:2"), r("name:udp1", "name:udp1")}},
 		{"http1", func(b int) *msg.NewProxy {
 			return &msg.NewProxy{ProxyName: "http1", ProxyType: "http", CustomDomains: []string{"d1.test", "d2.test"}, Locations: []string{"/", "/api"}}
 		}, []lcRes{r("h:d1.test|/|", "httproute:d1.test|/|"), r("h:d1.test|/api|", "httproute:d1.test|/api|"), r("h:d2.test|/|", "httproute:d2.test|/|"), r("h:d2.test|/api|", "httproute:d2.test|/api|"), r("name:http1", "name:http1")}},
